@@ -44,6 +44,7 @@ class Knobs:
         self.p_edge = r.choice((0.0, 0.05, 0.2))       # empty alphabets, zero lengths, ...
         self.float_grid_safe = True
         self.p_hooked = 0.0
+        self.p_placeholder = 0.0
 
 
 # ------------------------------------------------------------------ generation (witness-first)
@@ -444,6 +445,9 @@ def _gen_op(r, k, depth):
     # "%": substitute (a part of) the witness
     a, aw = gen(r, k, depth - 1)
     v = partial_of(aw, r, p_drop=r.choice((0.0, 0.3, 0.7)))
+    if k.p_placeholder and r.random() < k.p_placeholder:
+        v = with_placeholders(v, r)
+        # `...` widens what the result accepts; the full witness still conforms
     return {"t": "op", "op": "%", "s": a, "v": enc(v)}, aw
 
 
@@ -543,6 +547,35 @@ def _overlay(w, v):
         out = dict(w)
         for kk, vv in v.items():
             out[kk] = _overlay(w[kk], vv) if kk in w else vv
+        return out
+    return v
+
+
+def with_placeholders(v, r, depth=0):
+    """Replace some members of a plain value by the `...` placeholder (dict values; first/last
+    list elements), as substitution allows."""
+    if type(v) is dict and v:
+        out = {}
+        for kk, vv in v.items():
+            if r.random() < 0.35:
+                out[kk] = ...
+            else:
+                out[kk] = with_placeholders(vv, r, depth + 1)
+        return out
+    if type(v) is list and v:
+        out = [with_placeholders(x, r, depth + 1) for x in v]
+        x = r.random()
+        if x < 0.35:
+            out[-1] = ...
+        elif x < 0.6:
+            out[0] = ...
+        elif x < 0.7 and len(out) > 1:
+            out[0] = ...
+            out[-1] = ...
+        elif x < 0.8:
+            out.append(...)
+        elif x < 0.9:
+            out.insert(0, ...)
         return out
     return v
 
@@ -819,6 +852,8 @@ def feat(schema):
                     f.add("relaxed")
                 if any(opt for kk, (vv, opt) in ks.items() if kk is not ...):
                     f.add("optional")
+                if any((kk is not ...) and not hasattr(vv, "props") for kk, (vv, opt) in ks.items()):
+                    f.add("member_is_not_a_schema")
         elif kind == "AnySchema":
             if has("types") and len(p.get("types")) == 0:
                 f.add("types_empty")
@@ -1005,3 +1040,12 @@ def shrink_value(v):
             yield v[1:]
     elif type(v) in (int, float):
         yield from _shrink_num(v)
+
+
+def hash_seed_sensitive(spec):
+    """True if generation from this spec legitimately depends on PYTHONHASHSEED on the current
+    tree (regex with a negated class, known finding KF-C17-1): such values stay out of the
+    cross-interpreter determinism digests."""
+    if spec["t"] == "str" and "regex" in spec and "class_neg" in G.features(spec["regex"]["ast"]):
+        return True
+    return any(hash_seed_sensitive(c) for c in children(spec))
